@@ -1,2 +1,11 @@
 import OmplModel.Props.C13
-#print axioms OmplModel.Props.C13.clear_cells
+#print axioms OmplModel.Props.C13.has_iff
+#print axioms OmplModel.Props.C13.getCell_some
+#print axioms OmplModel.Props.C13.neighbors_exact
+#print axioms OmplModel.Props.C13.neighbors_symm
+#print axioms OmplModel.Props.C13.components_partition
+#print axioms OmplModel.Props.C13.run_wf
+#print axioms OmplModel.Props.C13.gridN_count_border
+#print axioms OmplModel.Props.C13.gridB_one_queue
+#print axioms OmplModel.Props.C13.counts_sum
+#print axioms OmplModel.Props.C13.tops_best
